@@ -2643,8 +2643,9 @@ class PatternParser:
     character of a test case) -- and returns its (finite) language as a list of words of code-point terms.
     Grammar: alternation of concatenations of atoms with ? {n} {m,n}; atoms: groups, character classes, escapes, literals."""
 
-    def __init__(self, ex, st, items, oracle=None):
+    def __init__(self, ex, st, items, oracle=None, surrogates=False):
         self.ex, self.st, self.items, self.i, self.oracle = ex, st, list(items), 0, oracle
+        self.surrogates = surrogates      # re-pair \u{d8xx}\u{dcxx} escapes into one code point (output of the surrogate option)
 
     def peek(self):
         return concrete(self.items[self.i]) if self.i < len(self.items) else None
@@ -2760,6 +2761,29 @@ class PatternParser:
         self.i += 1
         return [[x]]
 
+    def hex_escape(self):
+        """at 'u{': the value of the hexadecimal digits up to '}' -- digits may be symbolic terms (the formatted code point of a test-case character)"""
+        j = self.i + 2
+        val, n = BV(0, 32), 0
+        while j < len(self.items) and concrete(self.items[j]) != ord('}'):
+            d = self.items[j]
+            c = concrete(d)
+            if c is not None:
+                if chr(c) not in '0123456789abcdefABCDEF':
+                    raise Inconclusive('non-hexadecimal character in a \\u{..} escape')
+                dv = BV(int(chr(c), 16), 32)
+            else:
+                if not self.ex.must(self.st, z3.Or(z3.And(z3.UGE(d, BV(0x30, 32)), z3.ULE(d, BV(0x39, 32))), z3.And(z3.UGE(d, BV(0x61, 32)), z3.ULE(d, BV(0x66, 32))))):
+                    raise Inconclusive('symbolic character in a \\u{..} escape that is not confined to 0-9a-f')
+                dv = z3.If(z3.ULE(d, BV(0x39, 32)), d - BV(0x30, 32), d - BV(0x57, 32))
+            val = val * BV(16, 32) + dv
+            n += 1
+            j += 1
+        if n == 0 or n > 6 or j >= len(self.items):
+            raise Inconclusive('malformed \\u{..} escape')
+        self.i = j + 1
+        return z3.simplify(val)
+
     def class_char(self):
         if self.peek() == 92:
             return self.escape()
@@ -2781,13 +2805,18 @@ class PatternParser:
             raise Inconclusive('backslash followed by a symbolic character in the printed pattern')
         ch = chr(c)
         if ch == 'u' and self.at('u{'):
-            j = self.i + 2
-            hx = ''
-            while j < len(self.items) and concrete(self.items[j]) is not None and chr(concrete(self.items[j])) != '}':
-                hx += chr(concrete(self.items[j]))
-                j += 1
-            self.i = j + 1
-            return BV(int(hx, 16), 32)
+            v1 = self.hex_escape()
+            if self.surrogates and self.at('\\u{'):
+                hi_ok = z3.And(z3.UGE(v1, BV(0xD800, 32)), z3.ULE(v1, BV(0xDBFF, 32)))
+                if self.ex.must(self.st, hi_ok):
+                    self.i += 1
+                    v2 = self.hex_escape()
+                    if not self.ex.must(self.st, z3.And(z3.UGE(v2, BV(0xDC00, 32)), z3.ULE(v2, BV(0xDFFF, 32)))):
+                        raise Inconclusive('high surrogate escape not followed by a low surrogate escape')
+                    return z3.simplify(BV(0x10000, 32) + ((v1 - BV(0xD800, 32)) << 10) + (v2 - BV(0xDC00, 32)))
+                if self.ex.feasible(self.st.pc, hi_ok):
+                    raise Inconclusive('escape that may or may not be a high surrogate')
+            return v1
         self.i += 1
         if ch in 'dDsSwWbB':
             raise Inconclusive('shorthand class in the printed pattern')
@@ -2800,7 +2829,9 @@ def q02t(ctx, lens=(2, 2), with_empty=False, domain='letters', settings=None):
     settings = dict(settings or {})
     stag = ''.join('[%s]' % k for k in sorted(settings) if settings[k])
     ob = Obligation('Q02t[%s%s]%s%s' % (','.join(map(str, lens)), '+empty' if with_empty else '', '' if domain == 'letters' else '[%s]' % domain, stag), q02t.__doc__)
-    dom_txt = {'letters': 'letters a..z', 'ascii': 'printable ASCII (U+0020..U+007E, so every regex metacharacter) plus \\\\n and \\\\t'}[domain]
+    dom_txt = {'letters': 'letters a..z', 'ascii': 'printable ASCII (U+0020..U+007E, so every regex metacharacter) plus \\\\n and \\\\t',
+               'latin1': 'Latin-1 letters and signs U+00C0..U+00FF (each its own grapheme cluster, none a mark)',
+               'emoticons': 'astral code points U+1F600..U+1F64F (each its own grapheme cluster)'}[domain]
     ob.domain = ('%d test cases of %s characters, each %s (every equality pattern)%s; settings: %s' % (
         len(lens), '/'.join(map(str, lens)), dom_txt, ' plus the empty test case' if with_empty else '',
         ', '.join(k for k in sorted(settings) if settings[k]) or 'default'))
@@ -2809,13 +2840,18 @@ def q02t(ctx, lens=(2, 2), with_empty=False, domain='letters', settings=None):
     allv = [v for c in cases for v in c]
     if domain == 'letters':
         assume = [z3.And(z3.UGE(v, BV(0x61, 32)), z3.ULE(v, BV(0x7A, 32))) for v in allv]
+    elif domain == 'latin1':
+        assume = [z3.And(z3.UGE(v, BV(0xC0, 32)), z3.ULE(v, BV(0xFF, 32))) for v in allv]
+    elif domain == 'emoticons':
+        assume = [z3.And(z3.UGE(v, BV(0x1F600, 32)), z3.ULE(v, BV(0x1F64F, 32))) for v in allv]
     else:
         assume = [z3.Or(z3.And(z3.UGE(v, BV(0x20, 32)), z3.ULE(v, BV(0x7E, 32))), v == BV(10, 32), v == BV(9, 32)) for v in allv]
         assume += [z3.And(z3.UGE(v, BV(9, 32)), z3.ULE(v, BV(0x7E, 32))) for v in allv]     # redundant; lets table look-ups be clipped to the interval
     fields = ctx.mir.structs.get('RegExpConfig')
     off = {k: (BV(1, 32) if k.startswith('minimum_') else z3.BoolVal(False)) for k in fields}
     names = {'repetitions': 'is_repetition_converted', 'verbose': 'is_verbose_mode_enabled', 'capture': 'is_capturing_group_enabled',
-             'no_start_anchor': 'is_start_anchor_disabled', 'no_end_anchor': 'is_end_anchor_disabled', 'escape': 'is_non_ascii_char_escaped'}
+             'no_start_anchor': 'is_start_anchor_disabled', 'no_end_anchor': 'is_end_anchor_disabled', 'escape': 'is_non_ascii_char_escaped',
+             'surrogates': 'is_astral_code_point_converted_to_surrogate'}
     for k, val in settings.items():
         if k not in names:
             raise Inconclusive('setting %s is not supported by Q02t' % k)
@@ -2848,6 +2884,13 @@ def q02t(ctx, lens=(2, 2), with_empty=False, domain='letters', settings=None):
             items = list(o2.st.load(buf).items)
             cls = re.sub(r'<[^>]*>', 'x', ''.join(chr(concrete(x)) if concrete(x) is not None else 'x' for x in items)).replace('\n', '/')
             ob.classes_seen[cls] = ob.classes_seen.get(cls, 0) + 1
+            if settings.get('escape'):
+                # with escaping the output is pure ASCII: no printed item may be a code point above U+007F
+                na = [x for x in items if (concrete(x) is not None and concrete(x) >= 0x80) or (concrete(x) is None and not ex.must(o2.st, z3.ULT(x, BV(0x80, 32))))]
+                if na:
+                    ob.classes_seen['non-ascii-output'] = ob.classes_seen.get('non-ascii-output', 0) + 1
+                    bads.append(z3.And(*o2.st.pc))
+                    continue
             if settings.get('verbose'):
                 head = [ord(ch) for ch in '(?x)']
                 if cps(items[:len(head)]) != head:
@@ -2867,7 +2910,7 @@ def q02t(ctx, lens=(2, 2), with_empty=False, domain='letters', settings=None):
                 bads.append(z3.And(*o2.st.pc))
                 continue
             try:
-                words, start, end = PatternParser(ex, o2.st, items, ctx.oracle).parse()
+                words, start, end = PatternParser(ex, o2.st, items, ctx.oracle, surrogates=bool(settings.get('surrogates'))).parse()
             except InfiniteLanguage:
                 ob.classes_seen['unbounded-quantifier'] = ob.classes_seen.get('unbounded-quantifier', 0) + 1
                 bads.append(z3.And(*o2.st.pc))
